@@ -6,7 +6,8 @@ From V.lib Require Import Base.
 From V.c13 Require Import C13Spec C13Model C13Bits C13EscProofs C13MarkProofs
   C13WriterProofs C13ReaderProofs C13RoundTrip C13PlainProofs
   C13ModelExt C13TrailProofs C13FswProofs C13FswRoundTrip C13ByteWriterProofs
-  C13WideProofs C13StickyProofs C13FailProofs C13ExactProofs C13SpillProofs C13SignedProofs C13UeLoopProofs C13ReadAnyProofs C13ReadAnyPlainProofs.
+  C13WideProofs C13StickyProofs C13FailProofs C13ExactProofs C13SpillProofs C13SignedProofs C13UeLoopProofs C13ReadAnyProofs C13ReadAnyPlainProofs
+  C13ModelTail C13TailProofs2.
 
 (* ---- emulation prevention, byte level, every byte string ---- *)
 Theorem C13_unescape_escape : forall l : list N, unescape (escape l) = l.
@@ -525,4 +526,77 @@ Print Assumptions C13_plain_read_widths.
 
 Example ex_sval : sval_of [true; false; true] = (-3)%Z /\ sval_of [false; true; true] = 3%Z
   /\ read_signed64 (rinit [160]) 3 = Some ((-3)%Z, mkR 5 0 1 0 false [160]).
+Proof. vm_compute. repeat split. Qed.
+
+(* ================================================================== round 4: Reader.ReadRemainingBytes, FixedSliceWriter.WriteString *)
+(* (models: C13ModelTail.v - the two methods of the anchored files that were not modelled before) *)
+
+(* ---- Reader.ReadRemainingBytes ---- *)
+(* (1) on any error-free reader state: with no bits pending it returns exactly the bytes not yet read (tail: the bytes whose
+       bits are the whole unread stream), sets no error, does not move the byte counter and leaves the reader drained;
+       with 1..7 bits pending it returns nil and sets the error, counters untouched;
+   (2) nil and no change at all once an error is set;
+   (3) every read of at least one bit from a drained reader fails at once: 0, error set, byte counter where it was *)
+Theorem C13_read_remaining_bytes :
+  (forall s, RGood s ->
+     if rn s =? 0 then
+       exists tail s', read_remaining s = (Some tail, s') /\
+         pbits s = bytes_to_bits tail /\ Forall lt256 tail /\
+         RGood s' /\ Drained s' /\ pbits s' = [] /\ rpos s' = rpos s
+     else
+       exists s', read_remaining s = (None, s') /\ rerr s' = true /\ rpos s' = rpos s /\ rn s' = rn s) /\
+  (forall s, rerr s = true -> read_remaining s = (None, s)) /\
+  (forall s n, Drained s -> 1 <= n ->
+     exists s', read_plain s n = (0, s') /\ rerr s' = true /\ rpos s' = rpos s /\ rn s' = 0).
+Proof. exact (conj read_remaining_spec (conj read_remaining_sticky read_plain_drained)). Qed.
+Print Assumptions C13_read_remaining_bytes.
+
+(* values (widths 1..32 that fit, flags) written with Writer / FixedSliceWriter.WriteBits, Flush, then ANY bytes behind them:
+   the values are read back, and ReadRemainingBytes then returns exactly those bytes (reader drained, no error, byte counter
+   at the first of them) when the values fill whole bytes; otherwise (padding bits pending) nil with the error set *)
+Theorem C13_remaining_roundtrip : forall ops tail,
+  forallb plain_op ops = true -> Forall lt256 tail ->
+  let head := wout (flush_plain (run_writer_plain ops)) in
+  exists s1, plain_reads ops [] (rinit (head ++ tail)) = (plain_vals ops, s1) /\ rerr s1 = false /\
+    if (N.of_nat (length (concat (map pvbits ops))) mod 8 =? 0)
+    then exists s2, read_remaining s1 = (Some tail, s2) /\ Drained s2 /\ rpos s2 = N.of_nat (length head)
+    else exists s2, read_remaining s1 = (None, s2) /\ rerr s2 = true.
+Proof. exact remaining_roundtrip. Qed.
+Print Assumptions C13_remaining_roundtrip.
+
+Example ex_remaining_ops : list wop := [WBits 5 3; WFlag true; WBits 9 4; WBits 258 16].
+Example ex_remaining :
+  forallb plain_op ex_remaining_ops = true /\
+  (let s1 := snd (plain_reads ex_remaining_ops [] (rinit (wout (flush_plain (run_writer_plain ex_remaining_ops)) ++ [0; 0; 3; 255]))) in
+   fst (read_remaining s1) = Some [0; 0; 3; 255] /\ rerr (snd (read_remaining s1)) = false /\ nr_bytes_read (snd (read_remaining s1)) = 3 /\
+   fst (read_plain (snd (read_remaining s1)) 1) = 0 /\ rerr (snd (read_plain (snd (read_remaining s1)) 1)) = true) /\
+  (let s1 := snd (plain_reads [WBits 5 3] [] (rinit (wout (flush_plain (run_writer_plain [WBits 5 3])) ++ [7]))) in
+   fst (read_remaining s1) = None /\ rerr (snd (read_remaining s1)) = true).
+Proof. vm_compute. repeat split. Qed.
+
+(* ---- FixedSliceWriter.WriteString ---- *)
+(* (1) WriteString(s, z) IS WriteBytes of the bytes of s followed by the terminator when z (one capacity check for both);
+   (2) so any op sequence with WriteString among the ops is an op sequence of the model there was (every C13_fsw_* theorem applies);
+   (3) all or nothing: string and terminator appended and the error left as it was, or nothing written and the error set;
+       the pending bits are not touched;
+   (4) never beyond the capacity *)
+Theorem C13_fsw_write_string :
+  (forall s l z, fput_string s l z = fput s (str_bytes l z)) /\
+  (forall cap ops, run_fsw2 cap ops = run_fsw cap (map lower_fop2 ops)) /\
+  (forall s l z,
+     (if fcap s <? foff s + N.of_nat (length (str_bytes l z))
+      then fbytes (fput_string s l z) = fbytes s /\ ferr (fput_string s l z) = true
+      else fbytes (fput_string s l z) = fbytes s ++ str_bytes l z /\ ferr (fput_string s l z) = ferr s) /\
+     fn (fput_string s l z) = fn s /\ fv (fput_string s l z) = fv s /\ fcap (fput_string s l z) = fcap s) /\
+  (forall cap ops, foff (run_fsw2 cap ops) <= cap).
+Proof.
+  exact (conj fput_string_is_fput (conj run_fsw2_lower
+          (conj (fun s l z => conj (fput_string_cases s l z) (fput_string_bits s l z)) run_fsw2_within_capacity))).
+Qed.
+Print Assumptions C13_fsw_write_string.
+
+Example ex_write_string :
+  let ops := [FStr [97; 98] true; F1 (FU 2 258); FStr [99; 100; 101] true; FStr [102] false] in
+  fbytes (run_fsw2 16 ops) = [97; 98; 0; 1; 2; 99; 100; 101; 0; 102] /\ ferr (run_fsw2 16 ops) = false /\
+  fbytes (run_fsw2 8 ops) = [97; 98; 0; 1; 2; 102] /\ ferr (run_fsw2 8 ops) = true.
 Proof. vm_compute. repeat split. Qed.
